@@ -165,6 +165,10 @@ func TestReplay(t *testing.T) {
 			if i := strings.Index(l, "constant.NewFloat(types."); i >= 0 {
 				rest := strings.NewReplacer(",", " ", "(", " ", ")", " ").Replace(l[i+len("constant.NewFloat(types."):])
 				if n, _ := fmt.Sscanf(rest, "%s math.Float64frombits 0x%X", &kind, &bits); n == 2 {
+					if math.IsNaN(math.Float64frombits(bits)) {
+						checkNewFloatNaN(t, "Replay", math.Float64frombits(bits))
+						continue
+					}
 					for _, kk := range floatKinds {
 						if kk.k.Name == kind {
 							checkNewFloat(t, "Replay", kk.k, kk.t, math.Float64frombits(bits))
